@@ -131,6 +131,9 @@ def run(ctx):
         extra = sorted(l for l in labels if l not in allowed and not l.endswith("['name']"))
         ctx.check("C02.R6", "write_union: a hint selects a branch only by its full name / type name", not extra, wu6.where(), f"write_union: hint compared with {sorted(labels)}", "a hint is also matched against something that is not the branch's full name (a short or partial name can denote another branch): the index written is not the one the hint names")
 
+    # ---- shared ----
+    ctx.borrow("C10", {"C10.R2": "C02.R8"}, "an un-hinted union value is encoded under the first branch the validators accept: a container validator that accepts without consulting every element selects a branch the value does not conform to, and the bytes are not the encoding of the datum under a conforming branch")
+
 
 def fixed_gate(ctx, a, f, rule):
     cfg = cfg_of(f)
@@ -373,6 +376,21 @@ def record_defaults(ctx, a, f, rule):
         guards = [(norm(t.ast), lab) for (t, lab) in cfg.guards_of(node)]
         absent = any((f"not in {datum}" in g and lab == "true") or (f" in {datum}" in g and "not in" not in g and lab == "false") for g, lab in guards)
         ctx.check(rule, f"{f.qualname}: default used under an absence test", absent, f.where(n), f"{f.qualname}: {norm(par) if par is not None else norm(n)}", "the field default is substituted on a condition other than the key being absent (an explicit value such as None would be replaced)")
+        # .. and as the schema gives it: a method of the default or a conversion of it that flows into an assignment is
+        # another value than the one the reader substitutes
+        if absent:
+            conv = None
+            if isinstance(par, ast.Attribute) and par.value is n and isinstance(a.parent(f.mod, par), ast.Call) and a.parent(f.mod, par).func is par:
+                conv = a.parent(f.mod, par)
+            elif isinstance(par, ast.Call) and n in par.args and norm(par.func) not in ("isinstance", "len", "type", "id", "repr") and not (isinstance(par.func, ast.Name) and a.p.resolve_func(f.mod, par.func) is not None):
+                conv = par
+            if conv is not None:
+                st = conv
+                while st is not None and not isinstance(st, ast.stmt):
+                    st = a.parent(f.mod, st)
+                flows = isinstance(st, (ast.Assign, ast.AnnAssign, ast.Return)) and not any(conv is x or any(conv is y for y in ast.walk(x)) for x in ([st.value.test] if isinstance(getattr(st, "value", None), ast.IfExp) else []))
+                if flows:
+                    ctx.violation(rule, f"{f.qualname}: the default is handed over as the schema gives it", f.where(n), f"{f.qualname}: {norm(conv)[:80]}", "the default written for an absent field is a converted value, not the schema's default: what is encoded differs from what a reader substituting the default returns (and under a union the branch it conforms to changes)")
     if found == 0:
         # the default may be fetched by a helper: then the helper must hand it over as it is
         from sa.pathsum import summaries as _summ
